@@ -10,6 +10,9 @@ from concurrent.futures import ThreadPoolExecutor
 
 VERIF = os.path.dirname(os.path.dirname(os.path.abspath(__file__)))
 REPO = '/repo'
+# checks are run from a snapshot of the committed /verif when VERIF_SNAP names one (so that edits in /verif do not disturb a long sweep);
+# seeds are read from, and results written to, the live /verif/seeded
+SNAP = os.environ.get('VERIF_SNAP', VERIF)
 
 
 def sh(cmd, **kw):
@@ -31,7 +34,7 @@ def one(d, tier, props_override, jobs):
         line = []
         for p in props:
             env = dict(os.environ, VERIF_REPO=tmp)
-            q = subprocess.run(f'{VERIF}/check {p} --tier {tier} --no-evidence --jobs {jobs}', shell=True, cwd=VERIF, env=env,
+            q = subprocess.run(f'{SNAP}/check {p} --tier {tier} --no-evidence --jobs {jobs}', shell=True, cwd=SNAP, env=env,
                                stdout=subprocess.PIPE, stderr=subprocess.STDOUT)
             out = q.stdout.decode('utf-8', 'replace')
             fired = re.findall(r'^FAILED-OBLIGATION (\S+): (.*)$', out, re.M)
